@@ -1,9 +1,10 @@
 #!/bin/sh
 # Debug helper: show the goal state of a .v file (relative to coq/) after the given line.
-# usage: coqgoal.sh theories/proofs/X.v LINE
+# usage: coqgoal.sh theories/proofs/X.v LINE [max output lines]
+root=$(cd "$(dirname "$0")/.." && pwd)
 f=$1; n=$2
-d=/verif/.cache/dbg; mkdir -p $d
+d=$root/.cache/dbg; mkdir -p "$d"
 b=$(basename "$f" .v)
-head -n "$n" "/verif/coq/$f" > $d/Dbg_$b.v
-echo "Show. " >> $d/Dbg_$b.v
-cd $d && timeout 300 coqc -Q /verif/coq/theories JV -noglob Dbg_$b.v 2>&1 | head -${3:-60}
+head -n "$n" "$root/coq/$f" > "$d/Dbg_$b.v"
+echo "Show. " >> "$d/Dbg_$b.v"
+cd "$d" && timeout 300 coqc -Q "$root/coq/theories" JV -noglob "Dbg_$b.v" 2>&1 | head -${3:-60}
